@@ -488,11 +488,11 @@ def _rest_of_addr_rule(ctx: Ctx, r, wi, c2, l2) -> None:
     st = [c for c in calls_in(wi.node) if isinstance(c.func, ast.Attribute) and c.func.attr == "write_instructions"]
     r.check(len(st) == 1 and ast.unparse(st[0].func.value).endswith("state.instruction_memory"), "emit-pass|store", wi.loc(),
             "instructions are not stored consecutively by instruction_memory.write_instructions")
-    wis = m.method("InstructionMemory", "write_instructions")
-    t3 = " ".join(ast.unparse(wis.node).split())
-    r.check("next_address = self.address_range.start" in t3 and "next_address += instr.length" in t3, "store|consecutive", wis.loc(),
-            "instructions are not placed at consecutive addresses from the start of instruction memory")
+    from ..imemspec import store_rule
+    store_rule(ctx, r)
     # ---- displacement: label + offset - address
+    from ..operandspec import convert_rule
+    convert_rule(ctx, r)
     cl = m.method("RiscvParser", "_convert_label_or_imm")
     fl = normal_flow(m, cl)
     lab_rets = [x for x in fl.returns if x.value is not None and "labels" in ast.unparse(x.value) or (x.value is not None and f"{cl.params[2]}[" in ast.unparse(x.value))]
